@@ -24,6 +24,9 @@ var c03Kinds = []ruleKind{
 	{"F.I == 0 || F.B", []string{"F.I = F.I + 1", "F.B = false", "F.Act(%d)"}},
 	{"!F.B && F.I < 3", []string{"F.Act(%d)", "F.I = F.I + 2"}},
 	{"F.I >= 0", []string{"Retract(\"%s\")", "F.B = !F.B", "F.Act(%d)"}},
+	// facts changed ONLY through a slice element / a map entry (no plain variable assignment in the action)
+	{"F.Arr[0] < 2", []string{"F.Arr[0] = F.Arr[0] + 1"}},
+	{`F.M["a"] < 1 && F.Arr[0] > 0`, []string{`F.M["a"] = F.M["a"] + 1`}},
 }
 
 func mkRule(name string, k ruleKind, id int) *grl.Rule {
@@ -63,6 +66,8 @@ func worldIB(i int64, b bool) func() *ref.World {
 		w := ref.NewWorld()
 		f := facts.New()
 		f.I, f.B = i, b
+		f.Arr = []int64{0, 7}
+		f.M = map[string]int64{"a": 0}
 		w.Objs["F"] = f
 		return w
 	}
@@ -111,7 +116,24 @@ func judgeC03(c *Case, tr *hx.Trace, w *ref.World) []Verdict {
 		if !agree {
 			v.Foreign++
 		}
+		// the conflict set recomputed independently: active rules whose condition the reference
+		// evaluator finds true on the facts of this cycle
+		nTrue := 0
+		var maxTrue int64
+		for _, name := range cy.ActiveModel {
+			rr := cy.RefAt[name]
+			if rr.Err != nil || !rr.True {
+				continue
+			}
+			if s := salOf(prog[name]); nTrue == 0 || s > maxTrue {
+				maxTrue = s
+			}
+			nTrue++
+		}
 		if cy.Exec != "" {
+			if r, ok := prog[cy.Exec]; ok && nTrue > 0 && salOf(r) < maxTrue {
+				out = append(out, Verdict{Sig: "C03:fired-rule-below-the-maximal-satisfied-salience", What: fmt.Sprintf("cycle %d: fired %s (salience %d) although an active rule of salience %d has a true condition on the current facts; order %v", cy.N, cy.Exec, salOf(r), maxTrue, cy.Order)})
+			}
 			if nc >= 2 && len(distinctSal) >= 2 {
 				v.Nontrivial = true
 			}
@@ -170,9 +192,13 @@ func C03(rep *ev.Reporter, tier string) {
 		if tier == "thorough" {
 			s3 = []salSpec{sals[0], sals[2], sals[4], sals[5]}
 		}
-		for a := range kinds {
-			for b := range kinds {
-				for d := range kinds {
+		k3 := []int{0, 2, 4, 5, 6}
+		if tier == "thorough" {
+			k3 = []int{0, 1, 2, 3, 4, 5, 6}
+		}
+		for _, a := range k3 {
+			for _, b := range k3 {
+				for _, d := range k3 {
 					for sa := range s3 {
 						for sb := range s3 {
 							for sd := range s3 {
@@ -210,6 +236,6 @@ func C03(rep *ev.Reporter, tier string) {
 		}
 	}
 	RunFamily(rep, gen, 4000, bud, judgeC03)
-	rep.Coverage["rule"] = "every rule set of k=2 (all kind pairs x all salience pairs) and k=3 (all kind triples x salience triples) rules over 5 rule kinds whose actions change which rules are satisfied next; per program every initial world x every rule-iteration order at every cycle (state-pruned). Non-trivial: a firing chosen among >=2 candidates with >=2 distinct saliences."
+	rep.Coverage["rule"] = "every rule set of k=2 (all kind pairs x all salience pairs) and k=3 (all kind triples x salience triples) rules over 7 rule kinds (quick: 5 of them in triples) whose actions change which rules are satisfied next, two of them changing facts only through a slice element / map entry; the fired rule is compared with the maximum over the conflict set the reference evaluator recomputes on the current facts AND with the maximum over the candidates the engine reported; per program every initial world x every rule-iteration order at every cycle (state-pruned). Non-trivial: a firing chosen among >=2 candidates with >=2 distinct saliences."
 	rep.Assumptions = append(rep.Assumptions, "saliences written in decimal/hex/octal/negative spellings; model salience comes from the generator, not from the engine's parse", "rule order controlled through the overlay hook verifhook.Order (all k! orders per cycle)")
 }
